@@ -23,7 +23,12 @@ Fixpoint subtree (t : tree) (p : path) : option tree :=
 Definition is_attr (t : tree) : bool := match t_type t with AttributeNode => true | _ => false end.
 
 (* ---- abstract syntax --------------------------------------------------------------------- *)
-Inductive ntest := TName (n : bytes) | TStar | TText.
+(* a name test carries its prefix (empty for a bare name): the engine compares the node's
+   local name AND its prefix string (antchfx v1.1.11 knows no namespace URLs) *)
+Inductive ntest := TName (pfx n : bytes) | TStar | TText.
+
+(* navigator.Prefix(): the XML namespace prefix, "" for every other format *)
+Definition t_prefix (t : tree) : bytes := match t_fs t with FXml p _ => p | _ => [] end.
 Inductive pred :=
 | PPos (k : nat)
 | PChildEq (name v : bytes)
@@ -40,7 +45,7 @@ Inductive step :=
 (* ---- evaluation ---------------------------------------------------------------------------- *)
 Definition test_ok (t : ntest) (n : tree) : bool :=
   match t, t_type n with
-  | TName nm, ElementNode => bytes_eqb nm (t_data n)
+  | TName pf nm, ElementNode => bytes_eqb nm (t_data n) && bytes_eqb pf (t_prefix n)
   | TStar, ElementNode => true
   | TText, TextNode => true
   | _, _ => false
@@ -50,7 +55,7 @@ Definition pred_ok (p : pred) (n : tree) : bool :=
   match p with
   | PPos _ => true
   | PChildEq nm v =>
-      existsb (fun k => test_ok (TName nm) k && bytes_eqb (inner_text k) v) (t_kids n)
+      existsb (fun k => test_ok (TName [] nm) k && bytes_eqb (inner_text k) v) (t_kids n)
   | PAttrEq a v =>
       existsb (fun k => is_attr k && bytes_eqb (t_data k) a && bytes_eqb (inner_text k) v) (t_kids n)
   | PSelfEq v => bytes_eqb (inner_text n) v
@@ -121,7 +126,7 @@ Inductive tok :=
 Definition is_name_char (b : byte) : bool :=
   let n := Byte.to_N b in
   (N.leb 48 n && N.leb n 57) || (N.leb 65 n && N.leb n 90) || (N.leb 97 n && N.leb n 122)
-  || N.eqb n 95 || N.eqb n 45.
+  || N.eqb n 95 || N.eqb n 45 || N.eqb n 58.
 Definition is_digit (b : byte) : bool := let n := Byte.to_N b in N.leb 48 n && N.leb n 57.
 
 Fixpoint take_while (f : byte -> bool) (s : bytes) : bytes * bytes :=
@@ -222,7 +227,11 @@ Definition parse_step (desc : bool) (ts : list tok) : option (step * list tok) :
   | KAt :: KStar :: r => if desc then None else Some (SAttr None, r)
   | KName nm :: KLPar :: KRPar :: r =>
       if bytes_eqb nm (hx "74657874"%string) then mk TText r else None
-  | KName nm :: r => mk (TName nm) r
+  | KName nm :: r =>
+      match take_until x3a nm with
+      | Some (pf, loc) => mk (TName pf loc) r      (* prefix:local *)
+      | None => mk (TName [] nm) r
+      end
   | KStar :: r => mk TStar r
   | _ => None
   end.
